@@ -51,6 +51,8 @@ def std_project(scroot, name="p", rng=None, rich_outputs=False, disable_git=True
                 steps += [["mkdir", "empty-dir"], ["file", "zero", realrun.b64(b"")], ["file", "bin/tool", realrun.b64(b"#!/bin/sh\n"), 0o755],
                           ["file", "unié中.txt", realrun.b64("unicode".encode())], ["file", "nested/deep/er/f.bin", realrun.b64(bytes(range(256)))],
                           ["symlink", "rel-link", "data/o.bin"], ["symlink", "dir-link", "nested/deep"]]
+                if t["id"] == "//a:e2":
+                    steps += [["fifo", "ipc/control.fifo"]]   # a named pipe left behind by the experiment (tar archives it)
             steps.append(["marker"])
             scripts[t["id"]] = {"steps": steps}
     return realrun.Project(scroot, tasks, scripts, name=name, disable_git=disable_git, hostile=hostile)
